@@ -250,6 +250,28 @@ def run_cli_case(case):
         shutil.rmtree(tmp, ignore_errors=True)
 
 
+def editing_filter(data):
+    """A filter whose event callback gives every event an object outside the value space: its writer must refuse it."""
+    from edxml import EDXMLPullFilter
+    from edxml.error import EDXMLEventValidationError, EDXMLError
+
+    class F(EDXMLPullFilter):
+        def _parsed_event(self, event):
+            event['q'] = {'300'}          # outside number:tinyint
+            super()._parsed_event(event)
+    f = F(io.BytesIO())
+    try:
+        f.parse(io.BytesIO(data))
+        f.close()
+        return 'accepted'
+    except EDXMLEventValidationError:
+        return 'rejected'
+    except EDXMLError as ex:
+        return 'edxml:' + type(ex).__name__
+    except Exception as ex:
+        return 'raised:' + type(ex).__name__
+
+
 def expected_view(op):
     ev = event_spec(op)
     return {'type': ev['type'], 'source': ev['source'], 'props': sorted([k, sorted(set(v))] for k, v in ev['props'] if v),
@@ -363,9 +385,11 @@ class C02(Property):
             f2 = filter_doc(f1)
             obs['filter'] = {'lossless': (e2, ev2, ox2) == (err, events, ox), 'idempotent': f1 == f2}
             obs['filterShape'] = [doc_shape(f1), doc_shape(f2)]
+            obs['filterEdit'] = editing_filter(data)
         except Exception as ex:
             obs['filter'] = 'err:' + type(ex).__name__
             obs['filterShape'] = None
+            obs['filterEdit'] = None
         return obs
 
     # -- model
@@ -401,7 +425,9 @@ class C02(Property):
                 'filter': {'lossless': True, 'idempotent': True},
                 # the filter machine: every ontology element of its output holds all definitions so far, events follow
                 # in order, foreign elements are not copied
-                'filterShape': [r['filter'], r['filter2']]}
+                'filterShape': [r['filter'], r['filter2']],
+                # a filter validates what it writes: an event made invalid in the callback is refused
+                'filterEdit': 'rejected' if r['delivered'] else 'accepted'}
 
     def fill_undecided(self, case, obs, pred):
         if case['kind'] == 'cli':
@@ -462,6 +488,9 @@ class C02(Property):
                 return 'the ontology read back differs from the union of the ontologies the writer accepted'
         if obs['filter'] != {'lossless': True, 'idempotent': True}:
             return 'pass-through filter: %s' % obs['filter']
+        if want and obs.get('filterEdit') != 'rejected':
+            return ('a filter whose callback makes every event invalid (object 300 for number:tinyint) wrote the document: %s'
+                    % obs.get('filterEdit'))
         return None
 
     def neighbours(self, case, rng):
